@@ -361,6 +361,15 @@ class ASTRewriter(ast.NodeTransformer):
             return arg.value.elts
         elif isinstance(arg, ast.Subscript) and isinstance(arg.value, ast.Name):
             _sval = self.env.get_type(arg.value.id)
+
+            # An element of a constant tuple of tuples: its elements are known
+            if (
+                isinstance(_sval, ast.Tuple)
+                and isinstance(arg.slice, ast.Constant)
+                and isinstance(_sval.elts[arg.slice.value], ast.Tuple)
+            ):
+                return _sval.elts[arg.slice.value].elts
+
             if (
                 isinstance(_sval, ast.Subscript)
                 and isinstance(_sval.slice, ast.Tuple)
